@@ -47,6 +47,32 @@ func Open(cfg *gorm.Config) (*gorm.DB, *recdrv.Rec, *sql.DB, error) {
 	return db, rec, sqldb, err
 }
 
+// StrictSP is the SQLite dialector with SavePoint/RollbackTo that REPORT the statement's error.
+// The official dialectors (sqlite, postgres, mysql) execute SAVEPOINT / ROLLBACK TO and return nil
+// whatever happened, so gorm's own error handling around save points is unreachable with them.
+type StrictSP struct{ sqlite.Dialector }
+
+func (d StrictSP) SavePoint(tx *gorm.DB, name string) error {
+	return tx.Exec("SAVEPOINT " + name).Error
+}
+func (d StrictSP) RollbackTo(tx *gorm.DB, name string) error {
+	return tx.Exec("ROLLBACK TO SAVEPOINT " + name).Error
+}
+
+// OpenStrict is Open with the StrictSP dialector.
+func OpenStrict(cfg *gorm.Config) (*gorm.DB, *recdrv.Rec, *sql.DB, error) {
+	rec := recdrv.New()
+	sqldb := rec.OpenDB()
+	if cfg == nil {
+		cfg = &gorm.Config{}
+	}
+	if cfg.Logger == nil {
+		cfg.Logger = logger.Discard
+	}
+	db, err := gorm.Open(StrictSP{sqlite.Dialector{Conn: sqldb}}, cfg)
+	return db, rec, sqldb, err
+}
+
 // OpenOn opens gorm on an existing *sql.DB.
 func OpenOn(sqldb gorm.ConnPool, cfg *gorm.Config) (*gorm.DB, error) {
 	if cfg == nil {
